@@ -76,6 +76,50 @@ def error_construct_blocks(body, variant):
     return sorted(set(bi for bi, si in q.err_variant_constructions(body, variant)))
 
 
+def error_exits(body):
+    """How a Result-returning function can fail, one label per definition of its result: `propagate:<callee>` when the
+    error is the one a call returned (`call?`, `match call { Err(e) => return Err(e) }`, `Err(Error::Wrap(e))`),
+    `construct:<Variant>` when the function builds the error itself. A `?` on a local Result that an inlined helper
+    filled is resolved through that local's own definitions."""
+    import re as _re
+    out = set()
+
+    def classify(sh, depth=0):
+        if sh.startswith("FromResidual::from_residual(break(Try::branch(") and sh.endswith(")))"):
+            inner = sh[len("FromResidual::from_residual(break(Try::branch("):-3]
+            m = _re.match(r"^([\w:<>]+)\(", inner)
+            if m and not inner.startswith("var:"):
+                out.add("propagate:%s" % m.group(1))
+                return
+            return "local"
+        if sh.startswith("Result::Err{"):
+            m = _re.search(r"err\(([\w:<>]+)\(", sh)
+            if m:
+                out.add("propagate:%s" % m.group(1))
+                return
+            m = _re.search(r"Error::(\w+)", sh)
+            out.add("construct:%s" % (m.group(1) if m else sh[:60]))
+        return None
+
+    for sh, site, e in q.def_shapes(body, 0, {}):
+        if classify(sh) == "local":
+            # the residual of a local Result: look at how that local can be an Err
+            x = e
+            loc = None
+            for sub in x.walk():
+                if isinstance(sub, Var) and not sub.is_arg and len(body.defs.get(sub.local, [])) > 1:
+                    loc = sub.local
+            if loc is None:
+                out.add("propagate:?%s" % sh[:40])
+                continue
+            for sh2, _, _ in q.def_shapes(body, loc, {}):
+                if sh2.startswith("Result::Ok{"):
+                    continue
+                if classify(sh2) == "local":
+                    out.add("propagate:?%s" % sh2[:40])
+    return out
+
+
 def error_returned(body, bb):
     """The error constructed in block bb reaches the return place on every path: every path
     from bb to Return passes a block that stores Err / a residual into _0."""
